@@ -16,7 +16,7 @@ import re
 import subprocess
 
 from . import pymeth, pyobj, pybytes
-from .pymeth import NONE, ANY, SProgram, STATE, REF, REFS, SLICE, NAT, INT, BOOL, BYTES, BITS, OPT, OBJ, STR
+from .pymeth import NONE, ANY, SProgram, STATE, REF, REFS, SLICE, NAT, INT, BOOL, BYTES, BITS, OPT, OBJ, STR, PLAINBITS, INTLIST, ITER
 from .pyexpr import Untranslatable
 from .arith import write_if_changed, _lake_build
 from ..paths import REPO, LEAN
@@ -66,7 +66,15 @@ GROUPS = {
         reuse=['BuilderOps', 'SliceOps'],
         entries=[('store_snake_bytes', [BYTES]), ('store_snake_string', [STR, BOOL]),
                  ('Slice', 'load_snake_bytes', []), ('Slice', 'load_snake_string', [])]),
+    # the ARGUMENT FORMS of store_bit / store_bits (bool, str, TvmBitarray, a plain bitarray, a list / tuple of ints, an iterator) and
+    # store_address(str): `Address(<str>)` is the declared interface function `addrOfStr` (a parameter; Model.Address.parse, tied by C15)
+    'ArgForms': dict(
+        main='Builder', files=[BUILDER, BITARR, SLICE_SRC, ADDRESS_SRC], ns='TonVerif.Generated.ArgForms', reuse=['BuilderOps'], forms=True,
+        entries=[('store_bit', [BOOL]), ('store_bit', [STR]), ('store_bit', [BITS]), ('store_bit', [PLAINBITS]), ('store_bit', [INTLIST]),
+                 ('store_bits', [STR]), ('store_bits', [INTLIST]), ('store_bits', [PLAINBITS]), ('store_bits', [ITER]),
+                 ('store_address', [STR])]),
 }
+FORMS_POLY = {('Builder', 'store_bit'), ('Builder', 'store_bits'), ('TvmBitarray', 'extend')}
 
 
 def _entries(g):
@@ -84,6 +92,8 @@ def head(group):
                 '   `while True:` (exhausted = raise).  Methods that do not build cells are the definitions of BuilderOps / SliceOps. -/',
                 'import TonVerif.Generated.BuilderOps', 'import TonVerif.Generated.SliceOps',
                 'set_option linter.unusedVariables false', f'namespace {g["ns"]}', 'open TonVerif TonVerif.Model', 'variable {R : Type}', '']
+    if False:
+        pass
     return ['/- GENERATED by harness/translate/bsops.py (pymeth.py) from the current source of',
             f'   {", ".join(g["files"])}; do not edit.',
             '   A method is  args → self → (self after the call, returned value);  `none` = the Python code raised (the state is the one',
@@ -222,9 +232,17 @@ def program(group):
                 if info is not None and not info.get('mk') and 'Cell' not in str(argtypes) + str(info['ret']):
                     return dict(info, lean=f'{ns}.{info["lean"]}', text=None)
             return None
-    for cls, name, argtypes in _entries(g):
-        sigs[(cls, name)] = argtypes
-    return SProgram(classes, main=g['main'], poly=POLY, externs=externs, src=g['files'][0], sigs=sigs, reuse=reuse)
+    poly = set(POLY)
+    if g.get('forms'):
+        poly |= FORMS_POLY
+        # declared: `Address(<str>)` (the parser of the textual forms, address.py `is_hex / is_b64`) is the interface function `addrOfStr`
+        classes['Address'] = dict(classes['Address'], ctor=dict(classes['Address']['ctor'], of={STR: ('addrOfStr', 'Bytes → Option Py.AddrV')}))
+        for k in [k for k in sigs if k[0] == 'Builder' and k[1] in ('store_bit', 'store_bits', 'store_address')]:
+            del sigs[k]
+    else:
+        for cls, name, argtypes in _entries(g):
+            sigs[(cls, name)] = argtypes
+    return SProgram(classes, main=g['main'], poly=poly, externs=externs, src=g['files'][0], sigs=sigs, reuse=reuse)
 
 
 def translate_all(group):
@@ -439,6 +457,24 @@ def py_builder(cells, fb, fr, toks):
                 b.store_dict(None if p[1] == '-' else cells[int(p[1])])
             elif k == 'cell':
                 b.store_cell(cells[int(p[1])])
+            elif k in ('bitf', 'bitsf'):
+                arg = '' if p[2] == '-' else p[2]
+                if p[1] == 'bool':
+                    x = arg == '1'
+                elif p[1] == 'str':
+                    x = bytes.fromhex(arg).decode()
+                elif p[1] == 'tvm':
+                    x = TvmBitarray(1023, bitarray(arg))
+                elif p[1] == 'ba':
+                    x = bitarray(arg)
+                elif p[1] in ('ints', 'tuple'):
+                    x = [int(v) for v in arg.split('.')] if arg else []
+                    x = tuple(x) if p[1] == 'tuple' else x
+                else:
+                    x = iter([int(c) for c in arg])
+                (b.store_bit if k == 'bitf' else b.store_bits)(x)
+            elif k == 'as':
+                b.store_address(bytes.fromhex(p[1].replace('-', '')).decode())
             elif k == 'sn':
                 b.store_snake_bytes(bytes.fromhex(p[1].replace('-', '')))
             elif k == 'sns':
@@ -691,6 +727,55 @@ def runSSn := runSWith gsopSn
 end BsEval
 """
 
+# the argument forms (Generated/ArgForms.lean): tokens bitf:<form>:<arg> / bitsf:<form>:<arg> / as:<hex of the text>
+LEAN_EVAL_FORMS = """namespace BsEval
+def intsArg (s : String) : Option (List Int) := if s == "-" then some [] else (s.splitOn ".").mapM String.toInt?
+def addrOfStr (bs : Bytes) : Option Py.AddrV :=
+  (Model.Address.parse (bs.map Char.ofNat)).map fun a => ⟨a.wc, a.hash, none⟩
+def gopF (ctx : Array (Option RCell)) (tok : String) : Option (GB × GB) :=
+  let same (f : GB) : Option (GB × GB) := some (f, f)
+  match tok.splitOn ":" with
+  | ["bitf", "bool", v] => same (Generated.ArgForms.store_bit_bool (v == "1"))
+  | ["bitf", "str", h] => do let h ← hexArg h; same (Generated.ArgForms.store_bit_str h)
+  | ["bitf", "tvm", b] => do let b ← parseBits b; same (Generated.ArgForms.store_bit_bits b)
+  | ["bitf", "ba", b] => do let b ← parseBits b; same (Generated.ArgForms.store_bit_bitarray b)
+  | ["bitf", "ints", xs] => do let xs ← intsArg xs; same (Generated.ArgForms.store_bit_ints xs)
+  | ["bitsf", "str", h] => do let h ← hexArg h; same (Generated.ArgForms.store_bits_str h)
+  | ["bitsf", "ints", xs] => do let xs ← intsArg xs; same (Generated.ArgForms.store_bits_ints xs)
+  | ["bitsf", "tuple", xs] => do let xs ← intsArg xs; same (Generated.ArgForms.store_bits_ints xs)
+  | ["bitsf", "ba", b] => do let b ← parseBits b; same (Generated.ArgForms.store_bits_bitarray b)
+  | ["bitsf", "iter", _] => same (Generated.ArgForms.store_bits_iter ())
+  | ["as", h] => do let h ← hexArg h; same (Generated.ArgForms.store_address_str addrOfStr h)
+  | _ => gop ctx tok
+def runBF := runBWith gopF
+end BsEval
+"""
+
+
+def forms_scripts():
+    """[(prefill bits, prefill refs, [tokens])]: every argument form of store_bit / store_bits at accepted / refused arguments and at the
+    capacity boundary, store_address(str) for hex and base64 texts"""
+    hx = lambda t: t.encode().hex() or '-'
+    bit_toks = ['bitf:bool:0', 'bitf:bool:1'] + [f'bitf:str:{hx(t)}' for t in ('0', '1', '2', ' 1 ', '+1', '-0', '-1', '01', '1_0', '', 'x', '1.0', '0b1', '\n1', '1_', '_1', '1__0', '10', '+', ' ')] \
+        + [f'bitf:tvm:{b}' for b in ('1', '0', '10', '011', '-')] + [f'bitf:ba:{b}' for b in ('1', '01', '-')] + ['bitf:ints:1', 'bitf:ints:0.1', 'bitf:ints:-']
+    bits_toks = [f'bitsf:str:{hx(t)}' for t in ('01', '0 1', '0_1', '0\n1', '\t1', '2', '01x', '', ' ', '_', '1\r0', '1\x0b0\x0c1', '1\x1c0', '1' * 30, ' 1' * 20, 'é', '0-1')] \
+        + [f'bitsf:ints:{x}' for x in ('0.1', '1.1.0', '2', '0.1.2', '-1', '-', '1')] + ['bitsf:tuple:1.0', 'bitsf:tuple:0.3'] \
+        + [f'bitsf:ba:{b}' for b in ('1', '0110', '-', '1' * 24)] + ['bitsf:iter:01', 'bitsf:iter:-']
+    out = []
+    for fb in (0, 5, 1000, 1019, 1022, 1023):
+        for i in range(0, len(bit_toks), 9):
+            out.append((fb, 0, bit_toks[i:i + 9]))
+        for i in range(0, len(bits_toks), 8):
+            out.append((fb, 1, bits_toks[i:i + 8]))
+    from pytoniq_core.boc.address import Address
+    a1, a2 = Address((0, bytes(range(32)))), Address((-1, bytes([255] * 32)))
+    texts = [a1.to_str(is_user_friendly=False), a2.to_str(is_user_friendly=False), a1.to_str(), a2.to_str(is_bounceable=False), a2.to_str(is_test_only=True),
+             a1.to_str(is_url_safe=False), '0:zz', 'nonsense', '', '0:' + '00' * 31, '-1:' + 'ab' * 32, a1.to_str()[:-1] + 'A']
+    for fb in (0, 756, 757, 1000):
+        out.append((fb, 0, [f'as:{hx(t)}' for t in texts]))
+    return out
+
+
 SNAKE_DAG = [(-1, '0110000101100010' * 5, ()), (-1, '01100011' * 127, (0,)), (-1, '01100100' * 127, (1,)), (-1, '101', ()),
              (-1, '01100101', (3,)), (-1, '0110011001100111', (0, 0)), (-1, '', ()), (-1, '', (6,)), (-1, '01101000' * 3, (7,))]
 
@@ -743,10 +828,12 @@ def s_word(bits, refs, toks):
     return f'{bits or "-"},{".".join(map(str, refs)) or "-"},{";".join(toks) or "-"}'
 
 
-def lean_eval(kind, words, mode, snake=False):
+def lean_eval(kind, words, mode, snake=False, forms=False):
     """kind 'B' / 'S'; words = script words -> one output line per word"""
-    fn = ('runB' if kind == 'B' else 'runS') + ('Sn' if snake else '')
+    fn = ('runB' if kind == 'B' else 'runS') + ('Sn' if snake else 'F' if forms else '')
     src = LEAN_EVAL
+    if forms:
+        src = LEAN_EVAL.replace('import TonVerif.Generated.SliceOps\n', 'import TonVerif.Generated.SliceOps\nimport TonVerif.Generated.ArgForms\nimport TonVerif.Model.Address\n') + LEAN_EVAL_FORMS
     if snake:
         src = LEAN_EVAL.replace('import TonVerif.Generated.SliceOps\n', 'import TonVerif.Generated.SliceOps\nimport TonVerif.Generated.SnakeOps\n') + LEAN_EVAL_SNAKE
     lines = [src, 'def ctxDag : String := "' + dag_word(SNAKE_DAG if snake else CTX_DAG) + '"', 'def inputs : String := "' + ' '.join(words) + '"',
@@ -756,7 +843,7 @@ def lean_eval(kind, words, mode, snake=False):
     with open(tmp, 'w') as f:
         f.write('\n'.join(lines) + '\n')
     try:
-        _lake_build(['TonVerif.Generated.BuilderOps', 'TonVerif.Generated.SliceOps', 'TonVerif.Drv.Builder'] + (['TonVerif.Generated.SnakeOps'] if snake else []))
+        _lake_build(['TonVerif.Generated.BuilderOps', 'TonVerif.Generated.SliceOps', 'TonVerif.Drv.Builder'] + (['TonVerif.Generated.SnakeOps'] if snake else []) + (['TonVerif.Generated.ArgForms', 'TonVerif.Model.Address'] if forms else []))
         p = subprocess.run(['lake', 'env', 'lean', tmp], cwd=LEAN, capture_output=True, text=True, timeout=900)
     finally:
         os.unlink(tmp)
@@ -771,7 +858,11 @@ def validate(group):
     gives on the same scripts (per op returned / raised, the value, the state afterwards).  -> (None | reason, number of scripts)"""
     cells = _lib_cells()
     try:
-        if group == 'SnakeOps':
+        if group == 'ArgForms':
+            scripts = forms_scripts()
+            got = lean_eval('B', [b_word(*x) for x in scripts], 'val', forms=True)
+            want = [py_builder(cells, *x) for x in scripts]
+        elif group == 'SnakeOps':
             from ..gen import cells as G
             sc = G.lib_build(SNAKE_DAG)
             sb, ss = snake_builder_scripts(), snake_slice_scripts()
